@@ -173,22 +173,32 @@ impl Context {
     pub fn emit_mir(&self, src: &str) -> Result<Mir, Vec<Box<dyn ReportableError>>> {
         let path = self.file_path.clone();
         let (ast, module_info, mut parse_errs) = parser::parse_to_expr(src, path);
+        if !parse_errs.is_empty() {
+            // The recovered AST contains `Expr::Error` placeholders and half-built definitions.
+            // Its type errors are still worth reporting, but macro-stage execution and MIR
+            // generation are not prepared for such an AST, so stop after the type check.
+            let ast = if ast.has_staging_constructs() {
+                ast.wrap_to_staged_expr()
+            } else {
+                ast
+            };
+            let (_, _, mut type_errs) = mirgen::typecheck_with_module_info(
+                ast,
+                self.get_ext_typeinfos().as_slice(),
+                self.file_path.clone(),
+                module_info,
+            );
+            parse_errs.append(&mut type_errs);
+            return Err(parse_errs);
+        }
         // let ast = parser::add_global_context(ast, self.file_path.unwrap_or_default());
-        let mir = mirgen::compile_with_module_info(
+        mirgen::compile_with_module_info(
             ast,
             self.get_ext_typeinfos().as_slice(),
             &self.macros,
             self.file_path.clone(),
             module_info,
-        );
-        if parse_errs.is_empty() {
-            mir
-        } else {
-            let _ = mir.map_err(|mut e| {
-                parse_errs.append(&mut e);
-            });
-            Err(parse_errs)
-        }
+        )
     }
     pub fn emit_bytecode(&self, src: &str) -> Result<vm::Program, Vec<Box<dyn ReportableError>>> {
         let mir = self.emit_mir(src)?;
